@@ -363,8 +363,18 @@ pub fn c11_chain() {
             look(&c2, 3);
         }
         look(&c1, 2);
+        // the host-facing definition with a conversion: define, then redefine, in an inner scope; the enclosing scope keeps its own
+        let mut c3 = root.new_inner_scope();
+        for n in names {
+            check!(c3.add_variable(n, 100i64).is_ok() && c3.get_variable(n) == Ok(Value::Int(100)), "add_variable defines the name in the scope it is called on");
+            check!(c3.add_variable(n, "again").is_ok() && c3.get_variable(n) == Ok(Value::String(Arc::new("again".to_string()))), "a redefinition through add_variable replaces the earlier value");
+        }
     }
     look(&root, 1);
+    for n in names {
+        let mut r2 = Context::default();
+        check!(r2.add_variable(n, 1i64).is_ok() && r2.add_variable(n, 2i64).is_ok() && r2.get_variable(n) == Ok(Value::Int(2)), "redefinition in the root scope replaces the earlier value");
+    }
 }
 
 /// C11 / C10 native replay: one comprehension node built directly as an AST whose five
@@ -1385,9 +1395,14 @@ pub fn c10_macro() {
 /// and once every reported name is defined execution no longer fails with an undeclared name.
 pub fn c19_references() {
     let pos: u8 = any();
-    crate::sym::assume(pos <= 9);
+    crate::sym::assume(pos <= 14);
     let make = |hole: &str| -> String {
         match pos {
+            10 => format!("[1, 2].filter(x, {})", hole),
+            11 => format!("[1, 2].map(x, {}, x)", hole),
+            12 => format!("[1, 2].exists_one(x, {})", hole),
+            13 => format!("[1, 2].exists(x, {})", hole),
+            14 => format!("{{1: 2}}.all(k, {})", hole),
             0 => format!("size([{}])", hole),
             1 => format!("[{}].size()", hole),
             2 => format!("[1, {}, 3]", hole),
